@@ -115,7 +115,8 @@ def case_coq(name, tab, dom, width, rows, L, E, exh, cont=()):
 
 
 def fin(x):
-    return float(x) if math.isfinite(x) else 0.0
+    """likelihoods sent to Coq: +inf / NaN can never be a likelihood and must not look like one (-1 is never close to a model value)."""
+    return float(x) if math.isfinite(x) else -1.0
 
 
 def missing_rows(rs, scope, dom, tier):
@@ -161,6 +162,7 @@ def run(pid, tier, seed, replay, mode):
         "float32 rounding absorbed by tolerance |impl-model| <= 2e-4*model + 1e-9 evaluated inside Coq",
         "scipy.stats pmf/pdf values of the leaves (tied per row, not proved); that continuous densities integrate to one (assumed)"]
     ncirc = (60 if tier == "quick" else 1500)
+    G.CLT_DET = 0.35          # Chow-Liu leaves with exact 0/1 table entries (evidence can rule out every value of a variable)
     cases = []
     dist = dict(kinds={}, vars={}, nodes=0, rows=0, clt_leaves=0, missing_cells={})
     corpus_dir = os.path.join(C.ROOT, "corpus", pid)
@@ -282,6 +284,7 @@ def run(pid, tier, seed, replay, mode):
                        "; one evaluation = one (circuit,row) compared inside Coq (likelihood and exp(log_likelihood) vs model); "
                        "non-trivial = circuit has more than one node; distinct by circuit+row hash")
     C.clean_gen(pid)
+    G.CLT_DET = 0.0
     return rep.finish("proof")
 
 
